@@ -73,6 +73,8 @@ let oracle_run (a : args) trace =
   let maxc = ref 1 and tend = ref 0 in
   let evs = ref [] and evsrc = ref [] in
   let nrec = ref [] and wrec = ref [] and frec = ref [] and qrec = ref None in
+  let snaps = ref [] in   (* (time, idle ids as text, head id, head key, pcount), newest first *)
+  let dmax = ref 0 in
   let starts : (int, int list) Hashtbl.t = Hashtbl.create 64 in      (* c -> start times, newest first *)
   let spans : (int, (int * int) list) Hashtbl.t = Hashtbl.create 64 in (* c -> (start, end) *)
   let open_s : (int, int) Hashtbl.t = Hashtbl.create 64 in
@@ -83,6 +85,7 @@ let oracle_run (a : args) trace =
     | "cfg" :: r -> incr ncfg;
       (match tok_val r "max" with Some v -> maxc := int_of_string v | None -> ());
       (match tok_val r "n" with Some v -> n_ck := max 1 (int_of_string v) | None -> ());
+      (match tok_val r "dmax" with Some v -> dmax := int_of_string v | None -> ());
       (match tok_val r "end" with Some v -> tend := int_of_string v | None -> ())
     | _ -> ()) trace;
   (* budget for the quadratic duplicate checks of the Gallina oracle *)
@@ -90,7 +93,7 @@ let oracle_run (a : args) trace =
   let si = ref 0 in
   List.iter (fun l ->
     match toks_of l with
-    | ["S"; t; c; late] ->
+    | "S" :: t :: c :: late :: _ ->
       let t = int_of_string t and c = int_of_string c in
       lmax := max !lmax (int_of_string late);
       evs := SchEvStart (z_of_int c) :: !evs; evsrc := l :: !evsrc;
@@ -102,7 +105,12 @@ let oracle_run (a : args) trace =
       (match Hashtbl.find_opt open_s c with
        | Some s -> Hashtbl.replace spans c ((s, t) :: (try Hashtbl.find spans c with Not_found -> [])); Hashtbl.remove open_s c
        | None -> ())
-    | "P" :: _ :: r ->
+    | "P" :: tp :: r ->
+      (match tok_val r "h", tok_val r "pc" with
+       | Some h, Some pc ->
+         let (hid, hkey) = (match String.split_on_char ':' h with [a; b] -> (int_of_string a, int_of_string b) | _ -> (-1, 0)) in
+         snaps := (int_of_string tp, (match tok_val r "i" with Some v -> v | None -> "-"), hid, hkey, int_of_string pc) :: !snaps
+       | _ -> ());
       incr si;
       if !si mod keep_every = 0 then begin
         let g k = match tok_val r k with Some v -> v | None -> "-" in
@@ -137,28 +145,52 @@ let oracle_run (a : args) trace =
         if not (next > t0) then fail (Printf.sprintf "next-check not-in-future c=%d t0=%d next=%d I=%d pcr=%d" c t0 next i pcr)
         else if not (next <= t1 + i + 5) then fail (Printf.sprintf "next-check beyond-interval c=%d t1=%d next=%d I=%d over=%d pcr=%d" c t1 next i (next - t1 - i) pcr)
       | _ -> fail "crash malformed-N") (List.rev !nrec);
-    (* liveness: in every window in which the checkable stayed schedulable, gaps between starts <= B *)
+    (match !qrec with
+     | Some r -> (match tok_val r "pend" with
+                  | Some "0" | None -> ()
+                  | Some v -> fail ("pending-leak pending-set-size=" ^ v ^ " after the scheduler stopped and all checks finished"))
+     | None -> ());
+    (* liveness, the timed reading of C04_progress_partial, decided from the snapshots only: the scheduler is STUCK if the
+       same head of the next-check index (same object, same key) stays due with a free slot over more than delta.
+       Whatever else delays a check - slots taken, earlier-due checkables, a saturated pool, a loaded machine - is not
+       a violation.  The only legitimate wait in that situation is the scheduler's own 0.5 s condition-variable timeout
+       (a finishing task whose checkable was removed from pending does not notify), hence delta = 3 s + 10 * the largest
+       oversleep observed in this run.  W records (gaps between starts) are statistics only. *)
+    let delta = 3_000_000 + 10 * hiccup in
+    let cur = ref None in
+    List.iter (fun (t, _, hid, hkey, pc) ->
+      if hid >= 0 && hkey < t - 1000 && pc < !maxc then begin
+        match !cur with
+        | Some (h0, k0, t0) when h0 = hid && k0 = hkey ->
+          if t - t0 > delta then
+            fail (Printf.sprintf "liveness scheduler-stuck head=%d key=%d due-and-slot-free(pcount=%d<max=%d) from %d to %d (> %d)" hid hkey pc !maxc t0 t delta)
+        | _ -> cur := Some (hid, hkey, t)
+      end else cur := None) (List.rev !snaps);
+    (* forced requests: an unserved forced request is a violation only if the scheduler demonstrably served LATER-DUE work
+       while the forced checkable sat in idle: a snapshot (atomic, under m_Mutex) that shows c in idle and a head of the
+       next-check index with a key beyond anything c's key can be (request time + Imax + dmax + margin) - impossible for
+       a scheduler that keys c by its next_check unless c was skipped and re-keyed. *)
+    let snaps_fwd = List.rev !snaps in
     List.iter (function
-      | [c; wa; wb; b] ->
-        let b = b + 4 * hiccup + 2 * !lmax in
-        let ss = List.filter (fun t -> t >= wa && t <= wb) (List.rev (try Hashtbl.find starts c with Not_found -> [])) in
-        let rec gaps prev = function
-          | [] -> if wb - prev > b then fail (Printf.sprintf "liveness c=%d no-check-start-between %d and %d (window %d..%d bound %d)" c prev wb wa wb b)
-          | t :: r -> if t - prev > b then fail (Printf.sprintf "liveness c=%d no-check-start-between %d and %d (window %d..%d bound %d)" c prev t wa wb b) else gaps t r in
-        gaps wa ss
-      | _ -> fail "crash malformed-W") (List.rev !wrec);
-    (* forced checks *)
-    List.iter (function
-      | [c; t; until; b] ->
-        let b = b + 4 * hiccup + 2 * !lmax in
-        if until - t >= b then begin
-          let ss = try Hashtbl.find starts c with Not_found -> [] in
-          let sp = try Hashtbl.find spans c with Not_found -> [] in
-          let started = List.exists (fun s -> s >= t && s <= t + b) ss in
-          let running = List.exists (fun (s, e) -> s <= t && e >= t) sp || (match Hashtbl.find_opt open_s c with Some s -> s <= t | None -> false) in
-          if not (started || running) then fail (Printf.sprintf "forced c=%d forced-at=%d no-start-within=%d" c t b)
+      | c :: t :: until :: _ :: t2 :: imax :: _ ->
+        let ss = try Hashtbl.find starts c with Not_found -> [] in
+        let sp = try Hashtbl.find spans c with Not_found -> [] in
+        let started = List.exists (fun s -> s >= t && s <= until) ss in
+        let running = List.exists (fun (s, e) -> s <= t && e >= t) sp || (match Hashtbl.find_opt open_s c with Some s -> s <= t | None -> false) in
+        if not (started || running) then begin
+          let kc_max = t2 + imax + !dmax + 1_000_000 + 10 * hiccup in
+          let cs = string_of_int c in
+          let hits = List.filter (fun (ts, idle, hid, hkey, _) ->
+            ts > t2 && ts < until && hid >= 0 && hid <> c && hkey > kc_max && List.mem cs (String.split_on_char ',' idle)) snaps_fwd in
+          if List.length hits >= 3 then
+            (match hits with
+             | (ts, _, hid, hkey, _) :: _ ->
+               fail (Printf.sprintf "forced c=%d forced-at=%d never-started-until=%d but at %d (and %d more snapshots) it sits in idle behind head=%d with key=%d > %d"
+                       c t until ts (List.length hits - 1) hid hkey kc_max)
+             | [] -> ())
         end
       | _ -> fail "crash malformed-F") (List.rev !frec);
+    ignore !wrec;
     !err
 
 let oracle_c04 script trace =
